@@ -16,7 +16,8 @@
 //!            entry 0 = Timestamped::new in the source, 1 = attach_timestamps(ts_fn), 2 = to_timestamped();
 //!            ts_fn(x) = sel 0: x | 1: c | 2: x.wrapping_add(c) | 3: u64::MAX - x   (entry 1 only);
 //!            keyed via key_by for entry >= 1; stage 0 = the stamped stream, 1 = key_by_window,
-//!            2 = group_by_window / group_by_key_and_window; runs=[[parts,threads,coll]..] all on clones
+//!            2 = group_by_window / group_by_key_and_window; runs=[[parts,threads,coll]..] (parts -1:
+//!            collect_par(Some(threads), None), -2: collect(); a run equal to run i is printed ["=", i]) all on clones
 //!            of the SAME collection, coll 0 = collect_seq/collect_par, 1 = collect_*_sorted,
 //!            2 = collect_par_sorted_by_key, 3 = Runner with checkpointing in a fresh directory;
 //!            rows: stage 0 [k,ts,[v]], stage 1 [k,start,end,[v]], stage 2 [k,start,end,[v..]] in the
@@ -98,7 +99,9 @@ fn weq(a: Window, b: Window) -> Value {
 // ===================================================================================
 #[derive(Clone, Copy)]
 struct RunSpec {
-    parts: usize,
+    /// n > 0: collect_par(Some(threads), Some(n)); 0: collect_seq; -1: collect_par(Some(threads), None)
+    /// (the runner / planner picks the partition count); -2: collect()
+    parts: i64,
     threads: usize,
     coll: u64,
 }
@@ -107,7 +110,7 @@ fn runspecs(v: &Value) -> Vec<RunSpec> {
         .unwrap()
         .iter()
         .map(|r| RunSpec {
-            parts: r[0].as_u64().unwrap() as usize,
+            parts: r[0].as_i64().unwrap(),
             threads: r[1].as_u64().unwrap() as usize,
             coll: r[2].as_u64().unwrap(),
         })
@@ -126,10 +129,10 @@ fn scratch_dir() -> std::path::PathBuf {
 fn ckpt_collect<T: RFBound>(p: &Pipeline, id: NodeId, r: RunSpec) -> anyhow::Result<Vec<T>> {
     let dir = scratch_dir();
     let runner = Runner {
-        mode: if r.parts == 0 {
+        mode: if r.parts == 0 || r.parts == -2 {
             ExecMode::Sequential
         } else {
-            ExecMode::Parallel { threads: Some(r.threads), partitions: Some(r.parts) }
+            ExecMode::Parallel { threads: Some(r.threads), partitions: opt_parts(r.parts) }
         },
         checkpoint_config: Some(CheckpointConfig {
             enabled: true,
@@ -145,6 +148,17 @@ fn ckpt_collect<T: RFBound>(p: &Pipeline, id: NodeId, r: RunSpec) -> anyhow::Res
     match out {
         Ok(r) => r,
         Err(e) => std::panic::resume_unwind(e),
+    }
+}
+
+fn opt_parts(parts: i64) -> Option<usize> {
+    if parts > 0 { Some(parts as usize) } else { None }
+}
+fn collect_i<T: RFBound>(c: PCollection<T>, r: RunSpec) -> anyhow::Result<Vec<T>> {
+    match r.parts {
+        -2 => c.collect(),
+        0 => c.collect_seq(),
+        n => c.collect_par(Some(r.threads), opt_parts(n)),
     }
 }
 
@@ -175,7 +189,7 @@ fn run_plain<T: RFBound>(p: &Pipeline, c: &PCollection<T>, runs: &[RunSpec], enc
             .map(|&r| {
                 let res = catch_unwind(AssertUnwindSafe(|| -> anyhow::Result<Vec<T>> {
                     match r.coll {
-                        0 => collect(c.clone(), r.parts, r.threads),
+                        0 => collect_i(c.clone(), r),
                         3 => ckpt_collect::<T>(p, c.node_id(), r),
                         _ => Err(anyhow::anyhow!("collector not available for this element type")),
                     }
@@ -212,10 +226,12 @@ where
                         })
                     };
                     match (r.coll, r.parts) {
-                        (0, _) => canon(collect(c.clone(), r.parts, r.threads)),
-                        (1, 0) => c.clone().collect_seq_sorted(),
-                        (1, _) => c.clone().collect_par_sorted(Some(r.threads), Some(r.parts)),
-                        (2, n) if n > 0 => c.clone().collect_par_sorted_by_key(Some(r.threads), Some(n)),
+                        (0, _) => canon(collect_i(c.clone(), r)),
+                        (1, 0 | -2) => c.clone().collect_seq_sorted(),
+                        (1, n) => c.clone().collect_par_sorted(Some(r.threads), opt_parts(n)),
+                        (2, n) if n > 0 || n == -1 => {
+                            c.clone().collect_par_sorted_by_key(Some(r.threads), opt_parts(n))
+                        }
                         (3, _) => canon(ckpt_collect::<(K, X)>(p, c.node_id(), r)),
                         _ => Err(anyhow::anyhow!("no such collector")),
                     }
@@ -735,7 +751,7 @@ fn interesting_u64(rng: &mut SplitMix64) -> u64 {
 // ===================================================================================
 // generators for the kinds tsp / wjoin / gbig / wnew
 // ===================================================================================
-fn jruns(runs: &[(usize, u64)]) -> Value {
+fn jruns(runs: &[(i64, u64)]) -> Value {
     Value::Array(runs.iter().map(|&(p, c)| json!([p, 4, c])).collect())
 }
 fn tsf_apply(sel: u64, c: u64, x: u64) -> u64 {
@@ -778,17 +794,17 @@ fn emit_tsp(
     off: u64,
     evs: &[Ev],
     stage: u64,
-    runs: &[(usize, u64)],
+    runs: &[(i64, u64)],
     tag: &str,
 ) {
     let evs: Vec<Ev> = if entry == 0 { evs.to_vec() } else { reindex(evs) };
     let tsf = if entry == 1 { tsf } else { (0, 0) };
     // stage 0 has no Ord: plain and checkpointing collectors only; by-key sorting needs partitions
-    let runs: Vec<(usize, u64)> = runs
+    let runs: Vec<(i64, u64)> = runs
         .iter()
         .map(|&(p, c)| {
             let c = if stage == 0 && (c == 1 || c == 2) { 0 } else { c };
-            if c == 2 && p == 0 { (2, 2) } else { (p, c) }
+            if c == 2 && (p == 0 || p == -2) { (2, 2) } else { (p, c) }
         })
         .collect();
     // non-trivial: events are really stamped through an entry point / collector beyond the old kinds,
@@ -833,8 +849,9 @@ fn side_keys(s: &SideSpec, keyed: bool) -> Option<Vec<(i64, i128, i128)>> {
         }
     }
 }
-fn emit_wjoin(em: &mut Emitter, jk: u64, keyed: bool, l: &SideSpec, r: &SideSpec, xp: bool, runs: &[(usize, u64)], tag: &str) {
-    let runs: Vec<(usize, u64)> = runs.iter().map(|&(p, c)| if c == 2 && p == 0 { (2, 2) } else { (p, c) }).collect();
+fn emit_wjoin(em: &mut Emitter, jk: u64, keyed: bool, l: &SideSpec, r: &SideSpec, xp: bool, runs: &[(i64, u64)], tag: &str) {
+    let runs: Vec<(i64, u64)> =
+        runs.iter().map(|&(p, c)| if c == 2 && (p == 0 || p == -2) { (2, 2) } else { (p, c) }).collect();
     // non-trivial: a window transform on at least one side, both sides non-empty with representable
     // windows, at least one key on both sides and one on one side only, a parallel run with >= 2 partitions
     let win = |s: &SideSpec| matches!(s, SideSpec::Win { .. });
@@ -843,7 +860,7 @@ fn emit_wjoin(em: &mut Emitter, jk: u64, keyed: bool, l: &SideSpec, r: &SideSpec
             (win(l) || win(r))
                 && a.iter().any(|k| b.contains(k))
                 && (a.iter().any(|k| !b.contains(k)) || b.iter().any(|k| !a.contains(k)))
-                && runs.iter().any(|r| r.0 >= 2)
+                && runs.iter().any(|r| r.0 >= 2 || r.0 == -1)
         }
         _ => false,
     };
@@ -930,11 +947,11 @@ fn generate_new(seed: u64, thorough: bool, em: &mut Emitter) {
                     for keyed in [false, true] {
                         for stage in 0..3u64 {
                             let pick = (anchor >> 3) as usize + size as usize + off as usize + entry as usize + stage as usize;
-                            let runs: Vec<(usize, u64)> = match pick % 4 {
+                            let runs: Vec<(i64, u64)> = match pick % 4 {
                                 0 => vec![(0, 0), (3, 0)],
-                                1 => vec![(2, 0), (0, 1)],
+                                1 => vec![(2, 0), (-2, 1)],
                                 2 => vec![(0, 0), (4, 2), (2, 3)],
-                                _ => vec![(7, 0), (0, 3)],
+                                _ => vec![(7, 0), (-1, 3)],
                             };
                             emit_tsp(em, entry, (0, 0), keyed, size, off, &evs, stage, &runs, "entry-anchors");
                         }
@@ -965,8 +982,9 @@ fn generate_new(seed: u64, thorough: bool, em: &mut Emitter) {
 
     // N4. every collector x every partition count on ONE collection (repeated collects of clones):
     //     structured events, one per timestamp over 3 windows in a scrambled order
-    let all_runs: Vec<(usize, u64)> = vec![
+    let all_runs: Vec<(i64, u64)> = vec![
         (0, 0), (0, 1), (1, 0), (2, 0), (2, 1), (2, 2), (3, 2), (4, 1), (7, 2), (16, 0), (16, 2), (0, 3), (3, 3), (64, 1),
+        (-1, 0), (-1, 1), (-1, 2), (-1, 3), (-2, 0),
     ];
     for size in 1..=(if thorough { 6u64 } else { 4 }) {
         for off in [0u64, 1, size, 2 * size + 1] {
@@ -1020,9 +1038,9 @@ fn generate_new(seed: u64, thorough: bool, em: &mut Emitter) {
         };
         let stage = rng.below(3);
         let nruns = 1 + rng.below(3) as usize;
-        let runs: Vec<(usize, u64)> = (0..nruns)
+        let runs: Vec<(i64, u64)> = (0..nruns)
             .map(|_| {
-                let p = *rng.pick(&[0usize, 0, 1, 2, 2, 3, 4, 5, 8, 13, 32]);
+                let p = *rng.pick(&[0i64, 0, 1, 2, 2, 3, 4, 5, 8, 13, 32, -1, -2]);
                 let c = if rng.chance(1, 12) { 3 } else { rng.below(3) };
                 (p, c)
             })
@@ -1034,7 +1052,7 @@ fn generate_new(seed: u64, thorough: bool, em: &mut Emitter) {
     //     key_by_window and the groupings, both modes; every window's events are spread over the
     //     whole (contiguously split) source, the table has matching windows (twice), a window with
     //     the same start and another end, and windows without events
-    let join_runs: Vec<(usize, u64)> = vec![(0, 0), (2, 0), (4, 0), (7, 2), (3, 1), (16, 0), (4, 3)];
+    let join_runs: Vec<(i64, u64)> = vec![(0, 0), (2, 0), (4, 0), (7, 2), (3, 1), (16, 0), (4, 3), (-1, 0), (-2, 1)];
     for (size, off) in [(10u64, 3u64), (4, 0), (1, 0), (5, 12)] {
         let m = off % size;
         let evs: Vec<Ev> = (0..24u64).map(|i| ((i % 3) as i64, m + (i * 7) % (4 * size), i as i64)).collect();
@@ -1097,9 +1115,9 @@ fn generate_new(seed: u64, thorough: bool, em: &mut Emitter) {
         let l = side(&mut rng, wl);
         let r = side(&mut rng, !wl);
         let nruns = 1 + rng.below(3) as usize;
-        let runs: Vec<(usize, u64)> = (0..nruns)
+        let runs: Vec<(i64, u64)> = (0..nruns)
             .map(|_| {
-                let p = *rng.pick(&[0usize, 1, 2, 2, 3, 4, 4, 5, 8, 13]);
+                let p = *rng.pick(&[0i64, 1, 2, 2, 3, 4, 4, 5, 8, 13, -1]);
                 let c = if rng.chance(1, 15) { 3 } else { rng.below(3) };
                 (p, c)
             })
